@@ -39,6 +39,30 @@ uintmax_t strtoumax(const char *s, char **end, int base)
 #ifndef TL
 # define TL 8
 #endif
+#ifdef HEXFORM
+/* value oracle for the html forms: '#' followed by HEXFORM (6 or 8) symbolic hex digits;
+ * the components are the digit pairs in the order red, green, blue[, alpha]; six digits
+ * denote an opaque colour */
+static unsigned hv(char c) { return (c >= '0' && c <= '9') ? (unsigned) (c - '0') : (c >= 'a' && c <= 'f') ? (unsigned) (c - 'a' + 10) : (unsigned) (c - 'A' + 10); }
+void harness(void)
+{
+	static const char hx[8] = { '0', '8', 'f', 'a', 'F', '3', '9', 'C' };
+	char txt[HEXFORM + 2];
+	MPT_STRUCT(color) c = { 1, 2, 3, 4 };
+	unsigned comp[4];
+	size_t i;
+	int r;
+	txt[0] = '#';
+	for (i = 0; i < HEXFORM; i++) txt[1 + i] = hx[V_IN_RANGE("digit", 0, 7)];
+	txt[HEXFORM + 1] = 0;
+	for (i = 0; i < HEXFORM / 2; i++) comp[i] = 16 * hv(txt[1 + 2 * i]) + hv(txt[2 + 2 * i]);
+	r = mpt_color_parse(&c, txt);
+	V_ASSERT(r == HEXFORM + 1, "a complete html colour is accepted and consumed entirely");
+	V_ASSERT(c.red == comp[0] && c.green == comp[1] && c.blue == comp[2], "red, green and blue are the first three digit pairs");
+	V_ASSERT(c.alpha == (HEXFORM == 8 ? comp[3] : 255u), "alpha is the fourth digit pair, opaque when absent");
+	V_WITNESS_END();
+}
+#else
 void harness(void)
 {
 	static const char al[8] = { '#', '0', '8', 'f', 'a', 'g', ' ', 0 };
@@ -58,3 +82,4 @@ void harness(void)
 	V_ASSERT(c1.alpha == c2.alpha && c1.red == c2.red && c1.green == c2.green && c1.blue == c2.blue, "the colour is determined by the consumed characters");
 	V_WITNESS_END();
 }
+#endif
